@@ -26,6 +26,8 @@ pub struct Block {
     pub raw: bool,
     /// req_idx of the chunk it lives in
     pub chunk: u32,
+    /// allocated and kept by a (failing) initialiser (C11: "stay valid and untouched")
+    pub kept_by_init: bool,
 }
 
 /// outcome class of one op, normalised so that `Err(AllocErr)` and the out-of-memory panic of
@@ -158,6 +160,8 @@ pub struct Exec<'s, const M: usize> {
     pub interior_ok: bool,
     pub slot_fit: Option<(usize, usize)>,
     pub pos: usize,
+    /// a reset happened after the current limit was set (C06: "keeps its allocation limit")
+    pub reset_since_limit_set: bool,
 }
 
 pub enum CallOut<R> {
@@ -215,6 +219,7 @@ impl<'s, const M: usize> Exec<'s, M> {
             interior_ok: false,
             slot_fit: None,
             pos: 0,
+            reset_since_limit_set: false,
         }
     }
 
@@ -299,6 +304,9 @@ impl<'s, const M: usize> Exec<'s, M> {
         simalloc::take_events(&mut self.events);
         self.op_reqs.clear();
         let events = std::mem::take(&mut self.events);
+        if std::env::var_os("BUMPSIM_DEBUG").is_some() {
+            eprintln!("op {} {}: events {:?}", self.cur, self.cur_kind, events);
+        }
         let arena = self.opts.arena;
         let mut n_req = 0;
         let mut n_free = 0;
@@ -330,6 +338,15 @@ impl<'s, const M: usize> Exec<'s, M> {
                                 self.stats.hit("limit_decision_granted");
                                 if held_usable + new_usable > l {
                                     let facts = if held_usable > l { "held-above-limit" } else { "held-within-limit" };
+                                    if self.reset_since_limit_set && held_usable <= l {
+                                        // the limit was in force before the reset and is no longer
+                                        self.violate(
+                                            "C06",
+                                            "limit-not-enforced-after-reset",
+                                            "",
+                                            format!("limit {} set before a reset; afterwards a chunk of {} was granted on top of {} held", l, size, held_usable),
+                                        );
+                                    }
                                     self.violate(
                                         "C07",
                                         "chunk-over-limit",
@@ -509,12 +526,25 @@ impl<'s, const M: usize> Exec<'s, M> {
         }
         if let Some((&pa, pb)) = self.blocks.range(..=addr).next_back() {
             if pa + pb.size > addr {
+                let kept = pb.kept_by_init;
                 self.violate("C01", "overlap", "", format!("new block overlaps a live block of {} bytes at offset {}", pb.size, addr - pa));
+                if kept {
+                    self.violate("C11", "block-kept-by-initialiser-handed-out-again", "", "a block the failing initialiser allocated and kept overlaps a later allocation".into());
+                }
                 return false;
             }
         }
         if let Some((&na, nb)) = self.blocks.range(addr..).next() {
             if na < addr + size {
+                let kept = nb.kept_by_init;
+                let detail = format!("new block of {} bytes at chunk offset {} runs into a live block of {} bytes at chunk offset {} (align {})", size, addr - cuser, nb.size, na.wrapping_sub(cuser), nb.align);
+                if kept {
+                    self.violate("C11", "block-kept-by-initialiser-handed-out-again", "", "a block the failing initialiser allocated and kept overlaps a later allocation".into());
+                }
+                self.violate("C01", "overlap", "", detail);
+                return false;
+            }
+            if false {
                 self.violate("C01", "overlap", "", format!("new block of {} bytes at chunk offset {} runs into a live block of {} bytes at chunk offset {} (align {})", size, addr - cuser, nb.size, na.wrapping_sub(cuser), nb.align));
                 return false;
             }
@@ -532,6 +562,7 @@ impl<'s, const M: usize> Exec<'s, M> {
                 expect,
                 raw,
                 chunk: creq,
+                kept_by_init: false,
             },
         );
         self.order.push(addr);
